@@ -27,7 +27,7 @@ let err_name = function
   | E_UNKNOWN_MARKER -> "UNKNOWN_MARKER" | E_IMAGE_TOO_BIG -> "IMAGE_TOO_BIG" | E_BAD_PRECISION -> "BAD_PRECISION"
   | E_COMPONENT_COUNT -> "COMPONENT_COUNT" | E_BAD_SAMPLING -> "BAD_SAMPLING" | E_BAD_MCU_SIZE -> "BAD_MCU_SIZE"
   | E_NO_QUANT_TABLE -> "NO_QUANT_TABLE" | E_NO_HUFF_TABLE -> "NO_HUFF_TABLE" | E_NO_ARITH_TABLE -> "NO_ARITH_TABLE"
-  | E_BAD_PROGRESSION -> "BAD_PROGRESSION" | E_ARITH_NOTIMPL -> "ARITH_NOTIMPL" | E_BAD_RESTART -> "BAD_RESTART"
+  | E_BAD_PROGRESSION -> "BAD_PROGRESSION" | E_ARITH_NOTIMPL -> "ARITH_NOTIMPL" | E_BAD_RESTART -> "BAD_RESTART" | E_EOI_EXPECTED -> "EOI_EXPECTED"
   | E_OUT_OF_FUEL -> "MODEL_OUT_OF_FUEL"
 
 let tbl_str = function
